@@ -270,7 +270,7 @@ def incremental(rep):
     t = norm(lp.target)
     hit = [n for n in walk_local(lp) if isinstance(n, ast.Assign) and norm(n.targets[0]) == f"{DATA}['class']"]
     hit_body = [n for n in hit if not any(n is x or any(n is y for y in ast.walk(x)) for x in lp.orelse)]
-    ok = bool(hit_body) and all(norm(n.value) == f"{t}['class']" for n in hit_body)
+    ok = bool(hit_body) and all(norm(origin(d, n.value)) == f"{t}['class']" for n in hit_body)
     rep.ob("O13.2", "SHAPE", fi, ok, [alpha(n, fi.node) for n in hit_body], "a matching item takes the class of the matching representative")
     for n in hit_body:
         sibs = _siblings(pm, n.targets[0])
